@@ -23,7 +23,7 @@ def field_histories(rng, tier):
         cmds = []
         for b0 in range(256):                                                  # DataRate_TXPower x ChMaskCntl/NbTrans
             red = r.below(256) if quick else None
-            for rd in ([red] if quick else range(0, 256, 5)):
+            for rd in ([red] if quick else range(b0 % 32, 256, 32)):        # thorough: 8 Redundancy bytes per DataRate_TXPower byte, all 256 over the grid
                 cmds.append(bytes([0x03, b0]) + r.choice([b"\x00\x00", b"\xff\xff", b"\x01\x00", b"\x00\x80", r.bytes(2)]) + bytes([rd]))
         for rd in range(256):                                                  # every Redundancy byte
             cmds.append(bytes([0x03, r.choice([0xFF, 0x0F, 0x50, r.below(256)])]) + r.choice([b"\x00\x00", b"\xff\xff", b"\x07\x00", r.bytes(2)]) + bytes([rd]))
@@ -32,7 +32,7 @@ def field_histories(rng, tier):
         for idx in list(range(18)) + [63, 64, 71, 72, 127, 128, 254, 255]:
             for f in freqs:
                 cmds.append(machist.dl_channel(idx, f))
-                for drr in ([r.below(256), 0x50, 0xFF, 0x05] if quick else range(256)):
+                for drr in ([r.below(256), 0x50, 0xFF, 0x05] if quick else range((idx + f // 100) % 8, 256, 8)):   # thorough: 32 DrRange bytes per (index, frequency), all 256 over the grid
                     cmds.append(bytes([0x07, idx]) + (f // 100).to_bytes(3, "little") + bytes([drr]))
         for v in range(256):
             cmds += [bytes([0x08, v]), bytes([0x09, v]), bytes([0x04, v])]
@@ -41,7 +41,7 @@ def field_histories(rng, tier):
             cmds.append(bytes([cid]) + r.bytes(r.below(4)))
         cmds += [bytes([0x03, 0x50]), bytes([0x05, 1, 2]), bytes([0x07, 3, 1]), bytes([0x0A])]
         r2 = r.fork("mix")
-        for _ in range(40 if quick else 1500):                                  # mixtures
+        for _ in range(40 if quick else 600):                                   # mixtures
             cmds.append(b"".join(r2.choice(cmds[:2000]) for _ in range(r2.range(2, 5))))
         for k, cmd in enumerate(cmds):
             net = machist.Net(r, region, r.choice([0, 14, 30, 255]), r.choice([0, 2, -128, 127]), bias=r.choice(["-", "1:1", "8:2"]) if region in machist.FIXED else "-")
@@ -126,7 +126,7 @@ def nb_histories(rng, tier):
             alphabet = ["S", "s", "D", "T", "R", "G", "E", "J", "A", "C"]
             seqs = itertools.product(alphabet, repeat=depth)
             for n, seq in enumerate(seqs):
-                if tier == "quick" and rng.below(4) != 0:
+                if rng.below(4 if tier == "quick" else 12) != 0:      # quick: a quarter of depth 4; thorough: a twelfth of depth 5 (x 6 regions)
                     continue
                 fcnt = 0
                 ops = []
